@@ -136,6 +136,7 @@ GEN = {
     "OVERFLOW": lambda r: r.choice(["1e999", "9.9e400", f"{r.randint(1, 9)}e{r.randint(400, 9999)}"]),
     "UNDERFLOW": lambda r: r.choice(["1e-999", "2.5e-400", f"{r.randint(1, 9)}e-{r.randint(400, 9999)}"]),
     "TIME": _time,
+    "TIME_ZONED": lambda r: _time(r) + r.choice(["Z", "Z", "+00:00", "-00:00", f"+{r.randint(0, 12):02d}:{r.choice([0, 30, 45]):02d}", f"-{r.randint(0, 12):02d}:{r.choice([0, 30]):02d}"]),
     "BADTIME": lambda r: r.choice(["25:00:00", "12:60:00", "12:30:61", "99:99:99", f"{r.randint(24, 99)}:{r.randint(0, 59):02d}:{r.randint(0, 59):02d}",
                                    f"{r.randint(0, 23):02d}:{r.randint(60, 99)}:{r.randint(0, 59):02d}"]),
     "DATE": _date,
